@@ -24,6 +24,9 @@ CHECKS = {
  'C07': dict(text="Machine-checked Lean 4 proofs: for every duplicate-free tuple of id positions the loop of tuple_as_sign_and_bitmap (with the code-shaped swap-count loop) returns (-1)^(number of inversions), i.e. the sign of the sorting permutation, and the union bitmap; any repeated id takes the ValueError branch; write-then-read through a signed key; M(g) keeps exactly grade g, is 0 beyond the dimension, projections are orthogonal idempotents summing to M; (e_i|e_j)[()] = diag(sig). Tied to /repo by comparing tuple_as_sign_and_bitmap, M(g..) and grades() with the executable model, and by evaluating names/blades/basis_vectors_lst/blades_of_grade/scalar/metric, M[(ids)] for every permutation of id subsets, M[blade], error branches and the projection laws on the real library for default and custom ids/orders/names/firstIdx.",
              technique="Lean 4 proof (inversion-count induction over the tuple loop; grade-projection algebra) + correspondence with the executable model",
              design="§6 C07"),
+ 'C03': dict(text="Machine-checked Lean 4 proofs about the executable kernel definitions (arrays with in-place accumulation, as the driver runs them), for any commutative coefficient ring and any COO entry list in any order with duplicates: the dense kernel and the runtime-sparse (zero-skipping) kernel both equal the table contraction, the grade-filtered table contracts the operands projected onto the requested grades, get_mult_function's branch choice preserves this, a scalar operand acts as the grade-0 multivector, and dtype kinds promote by max. Tied to /repo by running every generated kernel (4 tables x default/grade-filtered, left/right matrices) and every operator x operand-class pair of the real library on dense/sparse/single/zero patterns in int/float/complex dtypes against an exact contraction of the published table and against the executable model, both JIT configurations.",
+             technique="Lean 4 proof (fold lemma over the COO list, on the executable array kernels) + kernel/operator correspondence with the executable model",
+             design="§6 C03"),
 }
 
 def main():
